@@ -19,7 +19,7 @@ func init() {
 		Patterns: []string{"./ring", "./ring/shard"},
 		Run:      runC12,
 		Explanation: "Decides structural necessary conditions of 'shuffle shards are deterministic; read-only instances excluded; look-back is a superset': (R1) effect analysis of the shard cone (Ring.shuffleShard, filterOutReadOnlyInstances, buildRingForTheShard, PartitionRing.shuffleShard, constructors, the seed function): the only random source is rand.New(rand.NewSource(ShuffleShardSeed(identifier, zone))), no clock/env/goroutine/package state, zones iterated from a slice, every map iteration is order-insensitive by a syntactic recogniser (stores keyed by the loop key, counters, min/max, sorted-afterwards appends) or listed with a reason; " +
-			"(R2) without look-back the result does not depend on the clock: every use of the look-back threshold (inside && / || operands too) is evaluated only when lookbackPeriod > 0; (R3) an instance enters the shard only if shouldIncludeReadonlyInstanceInTheShard holds for it, and that predicate equals 'not read-only ∨ (period ≠ 0 ∧ ¬(period>0 ∧ ts>0 ∧ ts<threshold))' on all rows; (R4) the partition variant uses the same seed function with zone \"\"; (R5) an out-of-range size is replaced by the number of all partitions. (R6) the public wrappers skip the walk only for size ≤ 0 and pass identifier and size on unchanged; (R7) a computed shard is cached only if the ring topology stamp is unchanged (shared with C13.R3). Also: (R8) the zone list and the other derived fields the walk reads are replaced unconditionally on a topology change (shared with C13.R8); (R9) the requested size is never an operand of integer +, * or <<: every size up to math.MaxInt is a legal request and must not wrap; (R10) a cached look-back shard is reused only for windows starting at or after the window it was computed for (shared with C13.R6); (R11) a subring is selected and assembled under one hold of the ring lock, so a cached shard never carries a newer topology stamp than its content (shared with C05.R12). NOT decided: shard size and zone balance, monotonicity in size, ±1 stability, the look-back superset itself (depend on the walk over runtime token positions).",
+			"(R2) without look-back the result does not depend on the clock: every use of the look-back threshold (inside && / || operands too) is evaluated only when lookbackPeriod > 0; (R3) an instance enters the shard only if shouldIncludeReadonlyInstanceInTheShard holds for it, and that predicate equals 'not read-only ∨ (period ≠ 0 ∧ ¬(period>0 ∧ ts>0 ∧ ts<threshold))' on all rows; (R4) the partition variant uses the same seed function with zone \"\"; (R5) an out-of-range size is replaced by the number of all partitions. (R6) the public wrappers skip the walk only for size ≤ 0 and pass identifier and size on unchanged; (R7) a computed shard is cached only if the ring topology stamp is unchanged (shared with C13.R3). Also: (R8) the zone list and the other derived fields the walk reads are replaced unconditionally on a topology change (shared with C13.R8); (R9) the requested size is never an operand of integer +, * or <<: every size up to math.MaxInt is a legal request and must not wrap; (R10) a cached look-back shard is reused only for windows starting at or after the window it was computed for (shared with C13.R6); (R11) a subring is selected and assembled under one hold of the ring lock, so a cached shard never carries a newer topology stamp than its content (shared with C05.R12). (R12) the token lists the walk searches are merged from sorted per-instance lists (shared with C14.R5); (R13) a cached shard is found and stored under the request's own identifier, size and period (shared with C13.R4). NOT decided: shard size and zone balance, monotonicity in size, ±1 stability, the look-back superset itself (depend on the walk over runtime token positions).",
 	}
 }
 
